@@ -45,6 +45,7 @@ package network
 //@   ensures [uses-retry] first(libp2pDataTransferNetwork.openStream, $2 == p) && calls(libp2pDataTransferNetwork.openStream) == 1
 
 //@ func (*network.libp2pDataTransferNetwork).handleNewStream {C15,C05}
+//@   acquires {C20} channelmonitor.Monitor.lk, channelmonitor.monitoredChannel.shutdownLk, graphsync.Transport.dtChannelsLk, graphsync.dtChannel.lk, graphsync.dtChannel.optionsLk, registry.Registry.registryLk, tracing.SpansIndex.spansLk, transportoptions.TransportOptions.optionsLk
 //@   requires s != nil
 //@   after Stream.Conn [libp2p] $r0 != nil
 //@   loop 0 invariant [peer-fixed] true
